@@ -97,6 +97,8 @@ type FT struct {
 	devirt   map[string]types.Type // interface type string -> concrete type (specialised verification)
 	variant  string
 	staticLen map[string]int // slice term -> statically known length (varargs arrays)
+	thunks   map[string]func() string
+	forced   map[string]string
 }
 
 func (ft *FT) fresh(prefix string, s Sort) string {
@@ -151,11 +153,35 @@ func sanitize(s string) string {
 
 // heap access ---------------------------------------------------------------
 
-func (ft *FT) heapTerm(st *State, name string) string {
-	if t, ok := st.heaps[name]; ok {
+// Heap values in a State are SMT terms or lazy tokens (prefix "\x00"): a lazy
+// token stands for a value (fresh constant after a havoc, merge of branches)
+// whose declaration is only emitted when somebody reads it.  This keeps the
+// VCs small: most heaps havocked by a call are never read afterwards.
+func (ft *FT) lazy(f func() string) string {
+	ft.n++
+	tok := fmt.Sprintf("\x00L%d", ft.n)
+	if ft.thunks == nil {
+		ft.thunks = map[string]func() string{}
+		ft.forced = map[string]string{}
+	}
+	ft.thunks[tok] = f
+	return tok
+}
+
+func (ft *FT) force(v string) string {
+	if !strings.HasPrefix(v, "\x00") {
+		return v
+	}
+	if t, ok := ft.forced[v]; ok {
 		return t
 	}
-	// initial value of the heap in this VC
+	t := ft.thunks[v]()
+	t = ft.force(t)
+	ft.forced[v] = t
+	return t
+}
+
+func (ft *FT) initialHeap(name string) string {
 	s, ok := ft.e.u.heaps[name]
 	if !ok {
 		panic("unknown heap " + name)
@@ -166,8 +192,39 @@ func (ft *FT) heapTerm(st *State, name string) string {
 		ft.assumed[key] = true
 		fmt.Fprintf(&ft.decls, "(declare-const %s %s)\n", init, s)
 	}
-	st.heaps[name] = init
 	return init
+}
+
+// rawHeap: the (possibly lazy) value of a heap in a state
+func (ft *FT) rawHeap(st *State, name string) string {
+	if t, ok := st.heaps[name]; ok {
+		return t
+	}
+	return "\x00I" + name
+}
+
+func (ft *FT) heapTerm(st *State, name string) string {
+	t, ok := st.heaps[name]
+	if ok && !strings.HasPrefix(t, "\x00") {
+		return t
+	}
+	var r string
+	if !ok {
+		r = ft.initialHeap(name)
+	} else if strings.HasPrefix(t, "\x00I") {
+		r = ft.initialHeap(t[2:])
+	} else {
+		r = ft.force(t)
+	}
+	st.heaps[name] = r
+	return r
+}
+
+func (ft *FT) forceRaw(v string) string {
+	if strings.HasPrefix(v, "\x00I") {
+		return ft.initialHeap(v[2:])
+	}
+	return ft.force(v)
 }
 
 func (ft *FT) setHeap(st *State, name, term string) {
@@ -180,7 +237,7 @@ func (ft *FT) havocHeap(st *State, name string) {
 	if !ok {
 		return
 	}
-	st.heaps[name] = ft.fresh(name, s)
+	st.heaps[name] = ft.lazy(func() string { return ft.fresh(name, s) })
 }
 
 // load from an lvalue
@@ -202,6 +259,16 @@ func (ft *FT) load(st *State, lv *LValue) Term {
 }
 
 func (ft *FT) storeLV(st *State, lv *LValue, v Term) {
+	switch v.Sort {
+	case SRef:
+		if v.S != "null" {
+			ft.setHeap(st, escHeap, store(ft.heapTerm(st, escHeap), v.S, "true"))
+		}
+	case SSlice:
+		if v.S != "nilslice" {
+			ft.setHeap(st, escHeap, store(ft.heapTerm(st, escHeap), sx("sbase", v.S), "true"))
+		}
+	}
 	if lv.Obj != "" {
 		ft.storeStruct(st, lv.Obj, lv.Typ, v.S)
 		return
@@ -275,6 +342,12 @@ func (ft *FT) storeStruct(st *State, ref string, t types.Type, v string) {
 		} else {
 			h, _ := u.fieldHeap(t, i)
 			ft.setHeap(st, h, store(ft.heapTerm(st, h), ref, acc))
+			switch f.sort {
+			case SRef:
+				ft.setHeap(st, escHeap, store(ft.heapTerm(st, escHeap), acc, "true"))
+			case SSlice:
+				ft.setHeap(st, escHeap, store(ft.heapTerm(st, escHeap), sx("sbase", acc), "true"))
+			}
 		}
 	}
 }
@@ -298,6 +371,7 @@ func (u *Universe) structHeaps(t types.Type, out map[string]bool) {
 
 const allocHeap = "$alloc"
 const panickingHeap = "$panicking"
+const escHeap = "$esc"
 const panicvalHeap = "$panicval"
 
 func (ft *FT) newRef(st *State, prefix string, reach string) string {
@@ -305,6 +379,7 @@ func (ft *FT) newRef(st *State, prefix string, reach string) string {
 	a := ft.heapTerm(st, allocHeap)
 	ft.assume("true", and(not(sel(a, r)), not(eq(r, "null")), eq(sx("refkind", r), "0")))
 	ft.setHeap(st, allocHeap, store(a, r, "true"))
+	ft.setHeap(st, escHeap, store(ft.heapTerm(st, escHeap), r, "false"))
 	return r
 }
 
